@@ -1,8 +1,10 @@
 package props
 
 import (
+	"errors"
 	"fmt"
 	"math"
+	"strconv"
 	"strings"
 
 	"github.com/ozanh/ugo"
@@ -34,7 +36,7 @@ func (c15) Batches(tier string) int {
 	return 16
 }
 func (c15) Required(string) []string {
-	return []string{"pairs", "law_checks", "numeric_value_checks", "script_route", "zero_division_seen", "type_error_seen"}
+	return []string{"pairs", "law_checks", "numeric_value_checks", "script_route", "literal_route", "zero_division_seen", "type_error_seen"}
 }
 func (c15) Assumptions() []string {
 	return []string{"the 60-line documented-conversion evaluator in c15.go (trusted)", "Go's own integer/float arithmetic", "parser/compiler turn `return a OP b` into the operator instruction (also covered by C02)"}
@@ -129,6 +131,71 @@ func (r c15res) key() string {
 		return "err:" + r.errName
 	}
 	return "v:" + canon.Value(r.val)
+}
+
+// c15lit renders a scalar as a source literal (false: no literal form, e.g. NaN, control characters).
+func c15lit(o ugo.Object) (string, bool) {
+	switch v := o.(type) {
+	case ugo.Int:
+		if v < 0 {
+			if v == math.MinInt64 {
+				return "", false
+			}
+			return "(-" + strconv.FormatInt(-int64(v), 10) + ")", true
+		}
+		return strconv.FormatInt(int64(v), 10), true
+	case ugo.Uint:
+		return strconv.FormatUint(uint64(v), 10) + "u", true
+	case ugo.Float:
+		f := float64(v)
+		if math.IsNaN(f) || math.IsInf(f, 0) || (f == 0 && math.Signbit(f)) {
+			return "", false
+		}
+		s := strconv.FormatFloat(math.Abs(f), 'e', -1, 64)
+		if f < 0 {
+			return "(-" + s + ")", true
+		}
+		return s, true
+	case ugo.Char:
+		if v >= 'a' && v <= 'z' || v >= '0' && v <= '9' || v >= 'A' && v <= 'Z' {
+			return "'" + string(rune(v)) + "'", true
+		}
+		return "", false
+	case ugo.Bool:
+		if v {
+			return "true", true
+		}
+		return "false", true
+	}
+	return "", false
+}
+
+// c15literalScript compiles (default options) and runs src; an optimizer refusal counts as the error it reports.
+func c15literalScript(src string) (r c15res) {
+	defer func() {
+		if p := recover(); p != nil {
+			r = c15res{panicked: fmt.Sprint(p)}
+		}
+	}()
+	bc, err := ugo.Compile([]byte(src), ugo.CompilerOptions{})
+	if err != nil {
+		msg := err.Error()
+		for _, n := range []string{"ZeroDivisionError", "TypeError", "InvalidOperatorError"} {
+			if strings.Contains(msg, n) {
+				return c15res{errName: n}
+			}
+		}
+		return c15res{errName: "compile: " + msg}
+	}
+	v, err := ugo.NewVM(bc).Run(nil)
+	if err != nil {
+		if errors.Is(err, ugo.ErrInvalidOperator) {
+			return c15res{errName: "InvalidOperatorError"}
+		}
+		n, m := canon.ErrParts(err)
+		return c15res{errName: n, errMsg: m}
+	}
+	return c15res{val: v}
 }
 
 func c15direct(a ugo.Object, tok token.Token, b ugo.Object) (r c15res) {
@@ -604,6 +671,22 @@ func (c15) checkPair(c *core.Ctx, sc *c15scripts, a, b c15val) {
 			c.Count("map_rendering_order_not_compared")
 		} else if d.panicked == "" && s.panicked == "" && d.key() != s.key() {
 			c.Violation("C15|route|"+tok.String()+"|"+tname(A)+"|"+tname(B), "direct BinaryOp and script disagree", wit(tok.String(), "both", s.key(), d.key()))
+		}
+		// third route: both operands written as literals in a script, default compiler options (the expression is folded
+		// at compile time by the optimizer's literal tables or its evaluator; a refusal reports the run-time error)
+		if la, oka := c15lit(A); oka && d.panicked == "" {
+			if lb, okb := c15lit(B); okb {
+				for _, src := range []string{"return " + la + " " + tok.String() + " " + lb, "x := (" + la + ") " + tok.String() + " (" + lb + ")\nreturn x"} {
+					l := c15literalScript(src)
+					c.Count("literal_route")
+					switch {
+					case l.panicked != "":
+						c.Violation("C15|panic-literal|"+tname(A)+"|"+tok.String()+"|"+tname(B), "operator on literals panics: "+core.NormMsg(l.panicked), wit(tok.String(), "literal script: "+src, l.panicked, "value or error"))
+					case l.key() != d.key():
+						c.Violation("C15|route-literal|"+tok.String()+"|"+tname(A)+"|"+tname(B), "the operator applied to literals (compile-time folding) disagrees with BinaryOp", wit(tok.String(), "literal script: "+src, l.key(), d.key()))
+					}
+				}
+			}
 		}
 		switch d.errName {
 		case "ZeroDivisionError":
